@@ -1574,6 +1574,12 @@ func zipAllInnerSubscriptions[T any](outerCtx context.Context, sources []Observa
 	onUpdate := func(ctx context.Context) {
 		mu.Lock()
 
+		if values == nil {
+			// torn down: a value that was already in flight when the sources were released
+			mu.Unlock()
+			return
+		}
+
 		hasEmptyQueue := false
 
 		for i := range sources {
